@@ -15,7 +15,7 @@ def run(rep, tier, seed):
     if not pr['ok']:
         rep.violation({'kind': 'proof-broken', 'log': pr['log'][-3000:], 'forbidden': pr['forbidden']}, suffix='no-failing-input-found')
     nh, nops, mp = (8, 30, 150) if tier == 'quick' else (200, 60, 100000)
-    k3check.run_crash(rep, 'C03', tier, seed, ['written'], nh, nops, mp, OPTS, known_sig=known_sig)
+    k3check.run_crash(rep, 'C03', tier, seed, ['written'], nh, nops, mp, OPTS, known_sig=known_sig, nested=(40 if tier == 'quick' else 6))
     rep.cov['rule'] = ('write histories (batches with marker keys, mixed sync flags, flush/compact/reopen) run under libc interposition; '
                        'for every (sampled in quick) syscall boundary the byte-exact image of everything that reached write(2) is '
                        'materialised and the real ldb_open + full scan is compared with the contract: contents = all acknowledged batches in order '
